@@ -108,3 +108,51 @@ Proof. intros Heta Hb Hbits H Hx.
   rewrite <- Hl in Hx |- *.
   exact (bootstrap_woKS_phase N Npos Dom key k Hkey l B bk lk (beta N k l B eta) mu x HG (beta_nonneg' eta Heta) Hx). Qed.
 End KB.
+
+(* ---- the whole chain: bootstrapping WITH key switch under the keys tfhe_createLweBootstrappingKey generates ---- *)
+From TV Require Import Model.KeySwitch Proofs.KeySwitch Proofs.KsGen Proofs.Digits.
+Lemma concat_len (N : nat) : forall L : list (list Z), Forall (fun s => length s = N) L -> length (concat L) = (length L * N)%nat.
+Proof. induction L as [|s r IH]; intro Hf; [reflexivity|]. apply Forall_cons_iff in Hf as [Hs Hf'].
+  cbn [concat length]. rewrite app_length, (IH Hf'), Hs. lia. Qed.
+Section KBS.
+Variable N : nat.
+Hypothesis Npos : (0 < N)%nat.
+Hypothesis Dom : inDomain (2 * Z.of_nat N).
+Variable key : list (list Z).
+Variable k : nat.
+Hypothesis Hkey : wf_tkey N k key.
+Hypothesis Hbin : Forall (Forall (fun x => x = 0 \/ x = 1)) key.
+Variables (l : nat) (B : Z).
+Hypothesis V : valid_layout l B.
+Variables (t : nat) (bb : Z).
+Hypothesis Vks : valid_ks t bb.
+
+Lemma extract_key_length : length (tlwe_extract_key key) = (k * N)%nat.
+Proof. destruct Hkey as [Hl Hf]. unfold tlwe_extract_key. rewrite (concat_len N key Hf), Hl. reflexivity. Qed.
+
+(* for every key pair (ks, bk) the generator builds from a draw stream: key-switching noises (after recentring) at most eta_ks, Gaussian
+   draws of the bootstrapping-key part at most eta: the gate-level bootstrapping returns +-mu (sign by the rounded phase) plus
+   e0 (|e0| <= n*beta(eta)), the rounding of the extracted mask to t*basebit bits, and the key-switching noises used (each <= eta_ks) *)
+Theorem generated_keys_bootstrap eta eta_ks lk ds ks bk r mu x : 0 <= eta -> 0 <= eta_ks ->
+  Forall (fun s => s = 0 \/ s = 1) lk -> length (fst x) = length lk ->
+  create_bootstrapping_key l B t bb lk key N ds = Some (ks, bk, r) ->
+  (forall gs r0, take_g (k * N * t * (Z.to_nat (pow2 bb) - 1)) ds = Some (gs, r0) -> forall nz, In nz (recentre gs) -> Z.abs (dtot32_dy nz) <= eta_ks) ->
+  (forall ks' r1, create_ks_key (tlwe_extract_key key) lk t bb ds = Some (ks', r1) -> bounded eta r1) ->
+  exists (res u : sample) e0 (e : nat -> nat -> Z -> Z), bootstrap l B k N bk ks t bb (length lk) mu x = Some res /\ length (fst res) = length lk /\
+    Z.abs e0 <= Z.of_nat (length lk) * beta N k l B eta /\ (forall i j h, Z.abs (e i j h) <= eta_ks) /\
+    eqm32 (lwe_phase lk res)
+          ((if rot_exponent N lk x <? Z.of_nat N then mu else w32 (- mu)) + e0
+           + zsum (k * N) (fun i => nth i (tlwe_extract_key key) 0 * (nth i (fst u) 0 - round_tb (Z.of_nat t) bb (nth i (fst u) 0)))
+           - zsum (k * N) (fun i => zsum t (ee bb e i (aibar (Z.of_nat t) bb (nth i (fst u) 0))))).
+Proof. intros Heta Hetak Hbits Hx H Hbk Hbb. unfold create_bootstrapping_key in H.
+  destruct (create_ks_key (tlwe_extract_key key) lk t bb ds) as [[ks' r1]|] eqn:E1; [|discriminate].
+  destruct (bk_rows l B key N lk r1) as [[bk' r2]|] eqn:E2; [|discriminate]. inversion H; subst ks' bk' r2. clear H.
+  specialize (Hbb ks r1 eq_refl).
+  destruct (bk_rows_good_key N Npos key k Hkey Hbin l B V eta Heta lk r1 bk r Hbb Hbits E2) as [HG Hl].
+  pose proof extract_key_length as Hel.
+  destruct (generated_ks_rows_ok (tlwe_extract_key key) lk t bb ds ks r1 eta_ks Vks E1 Hetak ltac:(rewrite Hel; exact Hbk)) as (e & Hrows & He).
+  rewrite Hel in Hrows. rewrite <- Hl in Hx.
+  destruct (bootstrap_phase N Npos Dom key k Hkey l B bk lk (beta N k l B eta) mu x ks t bb lk (length lk) e HG ltac:(apply beta_nonneg'; assumption) Hx Vks Hrows)
+    as (res & u & e0 & Hr & Hrl & He0 & Hph).
+  exists res, u, e0, e. rewrite Hl in He0. repeat split; assumption. Qed.
+End KBS.
